@@ -1210,7 +1210,14 @@ class MyPyAstVisitor:
                 qname = deepcopy(qnames).pop()
                 name = qname.split(".")[-1]
             else:
-                # In this case some types where defined in multiple modules with the same names.
+                # In this case some types where defined in multiple modules with the same names. If the current module
+                # binds the alias itself, the type checker knows which class it stands for here
+                symbol = self.mypy_file.names.get(type_name) if self.mypy_file is not None else None
+                alias_node = getattr(symbol, "node", None)
+                if isinstance(alias_node, mp_nodes.TypeAlias) and isinstance(alias_node.target, mp_types.Instance):
+                    qname = alias_node.target.type.fullname
+                    return qname.split(".")[-1], qname
+
                 # (sorted, so that the result does not depend on the iteration order of the set)
                 for alias_qname in sorted(qnames):
                     # We check if the type was defined in the same module
